@@ -229,10 +229,15 @@ class DriverFailure(Exception):
 
 
 def load_known() -> dict:
-    f = VERIF / "known_findings.json"
-    if not f.exists():
-        return {"findings": [], "fixed": []}
-    return json.loads(f.read_text())
+    """known_findings.json plus per-property fragments known_findings.d/*.json (same format; merged)."""
+    out = {"findings": [], "fixed": []}
+    files = [VERIF / "known_findings.json"] + sorted((VERIF / "known_findings.d").glob("*.json"))
+    for f in files:
+        if f.exists():
+            d = json.loads(f.read_text())
+            out["findings"] += d.get("findings", [])
+            out["fixed"] += d.get("fixed", [])
+    return out
 
 
 # --------------------------------------------------------------------------------------
